@@ -541,6 +541,7 @@ VERIFICATION_ERRORS = re.compile(
     r"loop invariant|assert_by|cannot show|not satisfied|unable to prove post-?condition", re.I)
 TOOL_LIMIT = re.compile(r"resource limit|rlimit|timed? ?out|unsupported|not supported|does not support|not yet supported", re.I)
 OB_MARK = re.compile(r"//\s*@ob\s+(\S+)")
+OB_NAMED = re.compile(r"^C\d\d+\.")
 SCAN_WORDS = ["assume(", "admit(", "external_body", "assume_specification", "axiom", "external_type_specification",
               "#[verifier::external]", "uninterp"]
 
@@ -625,7 +626,7 @@ def run_unit(recipe_mod, workdir):
     r.named = sorted(set(OB_MARK.findall(text)))
     spec_text = "".join(x for k, x in ub.parts if k == "spec") + "".join(t for p in ub.pieces() for _o, t in p.inserts)
     r.scan = {w: spec_text.count(w) for w in SCAN_WORDS if spec_text.count(w)}
-    rc, out, secs = common.run(["verus", path, "--error-format=json", "--output-json", "--time", "--rlimit", "50"],
+    rc, out, secs = common.run(["verus", path, "--error-format=json", "--output-json", "--time", "--rlimit", "50", "--multiple-errors", "20"],
                                cwd=workdir, timeout=600)
     r.time_s = time.time() - t0
     diags, summary = _split_output(out)
@@ -666,6 +667,16 @@ def run_unit(recipe_mod, workdir):
             r.status = "undecided"
             r.reason = ("%d closure(s) without a specification appeared in the extracted code (Verus cannot see their results); "
                         "failing obligation(s) not reported: %s" % (extra, ", ".join(f["obligation"] for f in r.failed)[:200]))
+            r.failed = []
+            return r
+        # Conditions Verus generates inside the extracted body (overflow, bounds, pre-condition of a callee that carries no
+        # @ob marker) depend on the hand-written wrapper's pre-conditions, which were chosen for the code the recipe was
+        # written for. If ONLY such conditions fail - no named obligation of the unit - the wrapper may simply not fit the
+        # changed code: undecided. Together with a failing named obligation they are reported with it.
+        if not any(OB_NAMED.match(f["obligation"]) for f in r.failed):
+            r.status = "undecided"
+            r.reason = ("only conditions generated inside the extracted body failed (no named obligation): %s"
+                        % ", ".join(f["obligation"] for f in r.failed)[:300])
             r.failed = []
             return r
         r.status = "failed"
